@@ -50,7 +50,8 @@ func (w *World) findIntent(v view, h *channeldb.HTLC) int {
 
 // checkAll runs the per-state C01 oracles on every commitment either side holds.
 func (w *World) checkAll(after string) {
-	capMsat := int64(capacitySat) * 1000
+	capacitySat := w.P.CapacitySat
+	capMsat := capacitySat * 1000
 	var anchorsMsat int64
 	if w.ct.HasAnchors() {
 		anchorsMsat = 2 * anchorSat * 1000
@@ -97,7 +98,7 @@ func (w *World) checkAll(after string) {
 		if w.P.OpenerB {
 			opener = 1
 		}
-		exp := [2]int64{halfSat * 1000, halfSat * 1000}
+		exp := [2]int64{w.gross[0] * 1000, w.gross[1] * 1000}
 		for k, hh := range w.h {
 			if !hh.sent {
 				continue
@@ -251,8 +252,8 @@ func (w *World) checkFeeAndTx(v view, present map[int]bool, after string) {
 	if w.ct.HasAnchors() && anchorsSeen != 2 && len(gotOut) >= 2 {
 		w.violate("anchors-missing", fmt.Sprintf("after %s: %s height %d has %d anchor outputs", after, v.label, c.CommitHeight, anchorsSeen))
 	}
-	if sum+int64(c.CommitFee) > capacitySat {
-		w.violate("outputs-exceed-capacity", fmt.Sprintf("after %s: %s height %d: outputs %d + fee %d > capacity %d", after, v.label, c.CommitHeight, sum, c.CommitFee, capacitySat))
+	if sum+int64(c.CommitFee) > w.P.CapacitySat {
+		w.violate("outputs-exceed-capacity", fmt.Sprintf("after %s: %s height %d: outputs %d + fee %d > capacity %d", after, v.label, c.CommitHeight, sum, c.CommitFee, w.P.CapacitySat))
 	}
 }
 
@@ -283,7 +284,7 @@ func (w *World) checkMirror() {
 		}
 	}
 	// Final balances: exactly the settled HTLC amounts moved.
-	exp := [2]int64{halfSat * 1000, halfSat * 1000}
+	exp := [2]int64{w.gross[0] * 1000, w.gross[1] * 1000}
 	for _, hh := range w.h {
 		if hh.sent && hh.removed && hh.Fate == "settle" {
 			exp[hh.By] -= int64(hh.Amt)
